@@ -853,6 +853,11 @@ class Table(Vector):
 			row_spec = row_spec.copy()
 		if isinstance(value, Iterator):
 			value = list(value)
+		elif len(target_indices) > 1 and isinstance(value, Iterable) \
+				and not isinstance(value, (Vector, list, tuple, str, bytes, bytearray, Mapping, int, float, complex)):
+			# (several target columns: any other sequence - a deque, dict.values() - is the list of
+			# its items, one per column, like a list, a tuple or a generator of them)
+			value = list(value)
 		if isinstance(value, Vector):
 			value = value.copy()
 		elif isinstance(value, (list, tuple)):
